@@ -640,6 +640,40 @@ func dedup(l []string) []string {
 	return out
 }
 
+// revExtra: per registered revision, what the search for a failing input uses when a read-set obligation breaks: the fields
+// read and the string constants the function (with its closures and package-local callees) mentions
+type revExtra struct {
+	ID       string
+	Minor    int
+	Reads    []string
+	Literals []string
+}
+
+func literals(f *ssa.Function) []string {
+	seen := map[*ssa.Function]bool{}
+	reach(f, seen)
+	set := map[string]bool{}
+	for fn := range seen {
+		for _, b := range fn.Blocks {
+			for _, ins := range b.Instrs {
+				for _, op := range ins.Operands(nil) {
+					if c, ok := (*op).(*ssa.Const); ok && c.Value != nil && c.Value.Kind() == constant.String {
+						if v := constant.StringVal(c.Value); len(v) < 80 {
+							set[v] = true
+						}
+					}
+				}
+			}
+		}
+	}
+	out := []string{}
+	for k := range set {
+		out = append(out, k)
+	}
+	sort.Strings(out)
+	return out
+}
+
 func allFunctions(prog *ssa.Program, p *ssa.Package) []*ssa.Function {
 	var fns []*ssa.Function
 	seen := map[*ssa.Function]bool{}
@@ -822,6 +856,7 @@ end PSA.Generated
 	// ---- F4 / F5
 	polSSA := ssaBy[mod+"policy"]
 	var readLines, writeLines []string
+	var extra []revExtra
 	for _, r := range revs {
 		fn := polSSA.Func(r.fn)
 		if fn == nil {
@@ -829,6 +864,7 @@ end PSA.Generated
 			continue
 		}
 		readLines = append(readLines, fmt.Sprintf("    ((%s, %d), %s)", leanStr(r.id), r.minor, leanStrs(readSet(fn))))
+		extra = append(extra, revExtra{ID: r.id, Minor: r.minor, Reads: readSet(fn), Literals: literals(fn)})
 		for _, w := range podWrites(fn) {
 			writeLines = append(writeLines, "    "+leanStr(fmt.Sprintf("%s@%d %s", r.id, r.minor, w)))
 		}
@@ -1052,6 +1088,9 @@ end PSA.Generated
 `
 	writeIfChanged(filepath.Join(*out, "Facts.lean"), facts)
 
+	if b, err := json.MarshalIndent(extra, "", " "); err == nil {
+		os.WriteFile(filepath.Join(filepath.Dir(*dumpFile), "factx_extra.json"), b, 0o644)
+	}
 	if len(failures) > 0 {
 		for _, f := range failures {
 			fmt.Fprintln(os.Stderr, "factx:", f)
